@@ -148,7 +148,6 @@ Proof.
   unfold cadd at 1. unfold two32, wrap32. rewrite (N.mod_small (len b)) by lia. rewrite Hdl.
   destruct (len (ts_payload s) + len b <? 4294967296) eqn:E; [|lia]. cbn [obind].
   cbn [ts_ip ts_payload].
-  destruct (cadd two16 _ _ _) as [t| | |]; cbn [obind]; try discriminate.
   intros E'. apply Ok_inj in E'. subst s'. split; [|reflexivity].
   unfold seg_twf. cbn [ts_with_ip ts_tcp ts_payload ts_data_len ts_ip].
   unfold ip_calc_csum. cbn [ip_src ip_dst ip_proto ip_set_csum ip_set_tot_len].
@@ -407,7 +406,7 @@ Theorem icmp_dgram_layout src dst raw typ id seq b p :
   exists iph c, l3_of raw (pk_body p) = ip_ser iph ++ icmp_ser {| ic_typ := typ; ic_code := 0; ic_csum := c; ic_id := id; ic_seq := seq |} ++ b
     /\ c = ip_checksum (icmp_ser {| ic_typ := typ; ic_code := 0; ic_csum := 0; ic_id := id; ic_seq := seq |} ++ b).
 Proof.
-  unfold icmp_dgram. destruct (cadd _ _ _ _) as [t| | |]; cbn [obind]; try discriminate.
+  unfold icmp_dgram.
   intros E. apply Ok_inj in E. subst p. eexists. eexists. split; [|reflexivity].
   unfold pkt_of_body. cbn [pk_body]. apply l3_of_framed. reflexivity.
 Qed.
@@ -447,31 +446,36 @@ Definition count_before (req : bool) (ops : list (bool * bytes)) : N :=
   len (filter (fun o => Bool.eqb (fst o) req) ops).
 
 Theorem icmp_seq_counts ops : forall f f' l,
+  if_ping f < 65536 -> if_pong f < 65536 ->
   icmp_run f ops = Ok (f', l) ->
   if_id f' = if_id f
-  /\ if_ping f' = if_ping f + count_before true ops /\ if_pong f' = if_pong f + count_before false ops
+  /\ if_ping f' = (if_ping f + count_before true ops) mod 65536 /\ if_pong f' = (if_pong f + count_before false ops) mod 65536
   /\ forall n req id seq, nth_error l n = Some (req, id, seq) ->
-       id = if_id f /\ seq = (if req then if_ping f else if_pong f) + count_before req (firstn n ops).
+       id = if_id f /\ seq = ((if req then if_ping f else if_pong f) + count_before req (firstn n ops)) mod 65536.
 Proof.
-  induction ops as [|[req b] ops IH]; intros f f' l; cbn [icmp_run].
+  induction ops as [|[req b] ops IH]; intros f f' l Hpi Hpo; cbn [icmp_run].
   - intros E. ok_inv E. unfold count_before. cbn [filter]. change (len (@nil (bool * bytes))) with 0.
-    split; [reflexivity|]. split; [lia|]. split; [lia|]. intros k req id seq Hk. destruct k; discriminate.
+    split; [reflexivity|]. split; [rewrite N.add_0_r, N.mod_small; lia|]. split; [rewrite N.add_0_r, N.mod_small; lia|].
+    intros k req id seq Hk. destruct k; discriminate.
   - destruct (if req then icmp_echo f b else icmp_echo_reply f b) as [[f1 p]| | |] eqn:E1; cbn [obind]; try discriminate.
     destruct (icmp_run f1 ops) as [[f2 l2]| | |] eqn:E2; cbn [obind]; try discriminate.
     intros E. ok_inv E.
-    destruct (IH _ _ _ E2) as (Hid & Hpi & Hpo & Hnth).
-    assert (S1 : if_id f1 = if_id f /\ if_ping f1 = if_ping f + (if req then 1 else 0) /\ if_pong f1 = if_pong f + (if req then 0 else 1)).
+    assert (S1 : if_id f1 = if_id f /\ if_ping f1 = (if_ping f + (if req then 1 else 0)) mod 65536
+                 /\ if_pong f1 = (if_pong f + (if req then 0 else 1)) mod 65536).
     { destruct req; unfold icmp_echo, icmp_echo_reply in E1;
         destruct (icmp_dgram _ _ _ _ _ _ _); cbn [obind] in E1; try discriminate;
-        unfold cadd in E1; destruct (_ <? two16); cbn [obind] in E1; try discriminate; ok_inv E1; cbn; lia. }
+        ok_inv E1; cbn; unfold wrap16; repeat split; try reflexivity; rewrite N.add_0_r, N.mod_small; lia. }
     destruct S1 as (I1 & P1 & Q1).
+    assert (B1 : if_ping f1 < 65536) by (rewrite P1; lia). assert (B2 : if_pong f1 < 65536) by (rewrite Q1; lia).
+    destruct (IH _ _ _ B1 B2 E2) as (Hid & Hpi' & Hpo' & Hnth).
     unfold count_before in *. cbn [filter fst].
     split; [congruence|].
-    split; [destruct req; cbn [Bool.eqb]; rewrite ?len_cons; lia|].
-    split; [destruct req; cbn [Bool.eqb]; rewrite ?len_cons; lia|].
+    split; [rewrite Hpi', P1; destruct req; cbn [Bool.eqb]; rewrite ?len_cons; lia|].
+    split; [rewrite Hpo', Q1; destruct req; cbn [Bool.eqb]; rewrite ?len_cons; lia|].
     intros k req' id seq Hk'. destruct k as [|k].
-    + cbn in Hk'. inversion Hk'; subst. cbn. split; [reflexivity|]. change (len (@nil (bool * bytes))) with 0. lia.
+    + cbn in Hk'. inversion Hk'; subst. cbn. split; [reflexivity|]. change (len (@nil (bool * bytes))) with 0.
+      destruct req'; rewrite N.add_0_r, N.mod_small; lia.
     + cbn [nth_error] in Hk'. destruct (Hnth _ _ _ _ Hk') as (A & B). split; [congruence|].
       cbn [firstn filter fst]. rewrite B.
-      destruct req, req'; cbn [Bool.eqb]; rewrite ?len_cons; lia.
+      destruct req, req'; cbn [Bool.eqb]; rewrite ?len_cons, ?P1, ?Q1; lia.
 Qed.
